@@ -12,13 +12,13 @@ RULE = (
     "was raised by the data; state = (effective flags, kind, handled errors so far, record index)"
 )
 BOUNDS = {
-    "quick": "63 policies x 11 overrides x 5 error kinds x (no fault, 4 single positions, 6 pairs) via Config object; the 63 policies x "
+    "quick": "63 policies x 11 overrides x 6 error kinds x (no fault, 4 single positions, 6 pairs) via Config object; all 40 pairs of override tokens x 7 policies over {collect,fail,stop} x 6 kinds x 4 positions; the 63 policies x "
     "5 kinds x 4 single positions again via config.ini",
     "thorough": "as quick plus all 2-flag override combinations over different flags, 5-record files (1,2 faults), config.ini injection for everything",
 }
 ASSUMPTIONS = [
     "error kinds: argument-type mismatch add(#2,1) on 'x'; function rule substring(#0,int(#1)) with -1; Python exception mod(#2,#1) "
-    "with 0; error in a nested argument; error on the right of '->'",
+    "with 0; error in a nested argument; error on the right of '->'; the erroring function standing alone as the match component",
     "number of error records per erroring line is not asserted (a nested error is reported by child and parent), only their line numbers",
 ]
 CHUNK = 150
@@ -33,6 +33,7 @@ KINDS = {
     "pyexc": ('@s = mod(#2, #1)', ["abc", "2", "5"], ["abc", "0", "5"]),
     "nested": ('@s = not(above(add(#2, 1), 2))', ["abc", "2", "5"], ["abc", "2", "x"]),
     "right": ('yes() -> @s = add(#2, 1)', ["abc", "2", "5"], ["abc", "2", "x"]),
+    "bare": ('add(#2, 1)', ["abc", "2", "5"], ["abc", "2", "x"]),  # the erroring function is itself the match component (evaluated through matches())
 }
 
 
@@ -62,6 +63,18 @@ def cases(tier, seed):
             for bad in _positions(n, 1 if tier == "quick" else 2):
                 if bad:
                     yield {"policy": pol, "override": [], "kind": kind, "bad": bad, "n": n, "via": "ini"}
+    if tier == "quick":
+        # every pair of override tokens of different flags, under the 7 policies over {collect, fail, stop}
+        singles = [o[0] for o in OVERRIDES1[1:]]
+        for a, b in itertools.combinations(singles, 2):
+            if a.replace("no-", "") == b.replace("no-", ""):
+                continue
+            for m in range(1, 8):
+                pol = [f for i, f in enumerate(("collect", "fail", "stop")) if m >> i & 1]
+                for kind in KINDS:
+                    for bad in _positions(n, 1):
+                        if bad:
+                            yield {"policy": pol, "override": [a, b], "kind": kind, "bad": bad, "n": n, "via": "obj"}
     if tier == "thorough":
         singles = [o[0] for o in OVERRIDES1[1:]]
         for a, b in itertools.combinations(singles, 2):
